@@ -69,13 +69,15 @@ class Ctx:
         return path
 
     # ---------------------------------------------------------------- Go harness
-    def build_harness(self, race=False):
-        """Build /verif/harness against the repository's current working tree with -tags verif."""
-        d = os.path.join(self.scratch, "harness" + ("-race" if race else ""))
+    def build_harness(self, race=False, goarch=None):
+        """Build /verif/harness against the repository's current working tree with -tags verif
+        (goarch: cross-build, e.g. "386" - such binaries run on this amd64 host)."""
+        d = os.path.join(self.scratch, "harness" + ("-race" if race else "") + ("-" + goarch if goarch else ""))
         os.makedirs(d, exist_ok=True)
         src = os.path.join(VERIF, "harness")
         for fn in os.listdir(src):
-            if fn.endswith(".go"):
+            # cross-builds only need the compile command (the process-level commands are host-specific)
+            if fn.endswith(".go") and (not goarch or fn in ("main.go", "common.go", "compile.go")):
                 shutil.copy(os.path.join(src, fn), d)
         with open(os.path.join(src, "go.mod.tmpl")) as f:
             mod = f.read().replace("@REPO@", REPO)
@@ -84,10 +86,11 @@ class Ctx:
         shutil.copy(os.path.join(REPO, "go.sum"), d)
         out = os.path.join(d, "harness")
         cmd = ["go", "build", "-tags", "verif"] + (["-race"] if race else []) + ["-o", out, "."]
-        r = subprocess.run(cmd, cwd=d, env=GOENV, capture_output=True, text=True, timeout=600)
+        env = dict(GOENV, GOARCH=goarch, CGO_ENABLED="0") if goarch else GOENV
+        r = subprocess.run(cmd, cwd=d, env=env, capture_output=True, text=True, timeout=600)
         if r.returncode != 0:
             return None, r.stdout + r.stderr
-        if not race:
+        if not race and not goarch:
             self.harness = out
         return out, ""
 
